@@ -5,6 +5,7 @@
 -/
 import Csvq.Lemmas.Commit
 import Csvq.Gen.FsProto
+import Csvq.Ref.FsProto
 namespace Csvq.C10
 open Csvq.Commit
 
@@ -22,6 +23,25 @@ theorem gen_commit_completes : completesClean genCommit = true := by decide
     no `handler_commit` precedes an `encode` -/
 theorem encode_before_swap :
     (Csvq.Gen.fxTransactionCommit.dropWhile (· ≠ "handler_commit")).all (· ≠ "encode") = true := by decide
+
+/-- scanning a loop body of Transaction.Commit: is every `encode` preceded, inside its own loop iteration,
+    by a `truncate` of the file it writes into? -/
+def encodeAfterTruncate : List String → Bool → Bool
+  | [], _ => true
+  | "loop{" :: rest, _ => encodeAfterTruncate rest false
+  | "truncate" :: rest, _ => encodeAfterTruncate rest true
+  | "encode" :: rest, t => t && encodeAfterTruncate rest t
+  | _ :: rest, t => encodeAfterTruncate rest t
+
+/-- each table is encoded into an EMPTIED file: a temporary file that still holds the bytes of an earlier,
+    failed COMMIT of the same session is cut to length 0 first, so the file swapped in is exactly the
+    new encoding and never "new records followed by stale ones" -/
+theorem gen_encode_into_emptied_file :
+    encodeAfterTruncate Csvq.Gen.fxTransactionCommit false = true ∧
+    (Csvq.Gen.fxTransactionCommit.filter (· = "encode")).length = 2 := by decide
+
+/-- the structured effect list of Transaction.Commit is the reviewed one -/
+theorem gen_txcommit_eq_ref : Csvq.Gen.fxTransactionCommit = Csvq.Ref.fxTransactionCommit := by decide
 
 /-- updated tables are written through the temp file: NewHandlerForUpdate creates it, after the lock -/
 theorem update_takes_lock_then_temp :
